@@ -1623,6 +1623,12 @@ def canon(expr, params=(), rename=None, consts=None):
                 return c(ast.IfExp(test=ast.BoolOp(op=ast.Or(), values=[t, e.orelse.test]), body=e.body, orelse=e.orelse.orelse))
             if isinstance(e.body, ast.IfExp) and ast.dump(e.body.orelse) == ast.dump(e.orelse):
                 return c(ast.IfExp(test=ast.BoolOp(op=ast.And(), values=[t, e.body.test]), body=e.body.body, orelse=e.orelse))
+            # .. and the two mixed positions: `(n if q else x) if p else n` is `n if (not p or q) else x`;
+            # `n if p else (x if q else n)` is `n if (p or not q) else x`
+            if isinstance(e.body, ast.IfExp) and ast.dump(e.body.body) == ast.dump(e.orelse):
+                return c(ast.IfExp(test=ast.BoolOp(op=ast.Or(), values=[ast.UnaryOp(op=ast.Not(), operand=t), e.body.test]), body=e.orelse, orelse=e.body.orelse))
+            if isinstance(e.orelse, ast.IfExp) and ast.dump(e.orelse.orelse) == ast.dump(e.body):
+                return c(ast.IfExp(test=ast.BoolOp(op=ast.Or(), values=[t, ast.UnaryOp(op=ast.Not(), operand=e.orelse.test)]), body=e.body, orelse=e.orelse.body))
             if isinstance(t, ast.BoolOp):
                 flat_vals = []
                 for v in t.values:
